@@ -10,7 +10,9 @@ COQ_CHUNK = 20
 RULE = ('random programs whose bodies use call/1..N (extra arguments), once/1, findall/3, = and \\= with goals written inline or arriving '
         'through one or two bound variables, atoms or compound goals, with 0/1/many solutions, as first/middle/last goal, under \\+ and inside '
         'if-then-else, with templates that share variables with the goal and repeated variables in \\= ; compared as C01 (the builtins are part '
-        'of both Coq semantics). Non-trivial: a builtin is called with a goal that arrives through a variable or has extra arguments or has no '
+        'of both Coq semantics); half of the findall/3 goals get a non-variable bag; a second family (progs.gen_meta_program) applies the builtins to '
+        'binding-sensitive goals with bags / extra arguments / terms that share the caller\'s variables with the goal, and queries the builtins '
+        'themselves through YP.query. Non-trivial: a builtin is called with a goal that arrives through a variable or has extra arguments or has no '
         'solution, and some query has an answer. Intrinsic oracle: the program with every builtin call replaced by its standard '
         'definition (findall(T,G,B) => findall(T,G,L), L = B; X \\= Y => \\+ X = Y; inline once(G) => (G -> true); inline call(G,A..) => the goal) gives the same answers.')
 TRUSTED_BASE = []
@@ -79,8 +81,29 @@ def nontrivial(case, io):
         progs.constructs(b, cs)
     return bool(cs & {'call:call', 'call:once', 'call:findall'})
 
+def _bags(b, acc):
+    if b[0] in ('and', 'or', 'if'):
+        _bags(b[1], acc); _bags(b[2], acc)
+    elif b[0] == 'not':
+        _bags(b[1], acc)
+    elif b[0] == 'call' and b[1] == 'findall' and len(b[2]) == 3:
+        t = b[2][2]
+        k = 'variable' if t[0] == 'var' else 'closed list' if t[0] == 'list' else 'partial list' if t[0] == 'pair' else 'not a list'
+        acc[k] = acc.get(k, 0) + 1
+
 def distribution(cases, obs):
-    return semcheck.stats(cases, obs)
+    d = semcheck.stats(cases, obs)
+    d['cases_meta_shared_family'] = sum(1 for c in cases if c.get('origin') == 'meta-shared')
+    bags = {}
+    for c in cases:
+        for _, _, b in c['clauses']:
+            _bags(b, bags)
+        for q in c['queries']:
+            if q[0] == 'findall' and len(q[1]) == 3:
+                _bags(['call', 'findall', q[1]], bags)
+    d['findall_bag_shapes'] = bags
+    d['cases_with_twin_oracle'] = sum(1 for o in obs if isinstance(o, dict) and 'twin' in o)
+    return d
 
 # ---- intrinsic oracle (implementation alone, no model): every builtin call is replaced by its standard definition
 #   findall(T,G,B)      =>  findall(T,G,L'), L' = B        (L' a new variable: the bag is matched AFTER the enumeration)
